@@ -180,7 +180,7 @@ pub fn build(e: &mut Ent, f: &Force) -> (StepCase, Tag) {
         }
     }
     let bus = e.bus_cfg();
-    (StepCase { code, pc, er, ccr, patches, bus, irq: None }, Tag { kind, insn, taken, sp_upper, target, frame })
+    (StepCase { code, pc, er, ccr, patches, bus, irq: None, primer: None }, Tag { kind, insn, taken, sp_upper, target, frame })
 }
 
 fn classify(case: &StepCase, j: &Judged, t: &Tag, stats: &mut Stats) {
